@@ -52,6 +52,11 @@ OnReq(e) == IF e.at <= e.t THEN Ok(S)
 \* the engine gives the node its turn at time e.t
 OnEval(e) == Ok([S EXCEPT !.pend = {p \in @ : ~(p[1] = e.g /\ p[2] = e.n /\ p[3] = e.t)}])
 \* a graph instance that stops (a removed key, a de-selected branch, the end of the run) takes its requests with it
+\* user code of a node of graph instance e.g threw at e.t: that instance's cycle is aborted there (the exception is caught by
+\* a node above it, or ends the run).  Named deviation (DESIGN 12.4, aborted child cycles): what the instance's later-ranked
+\* nodes were due to do IN this very cycle is lost with the cycle; what they had pending for later is not.
+OnThrow(e) == Ok([S EXCEPT !.pend = {p \in @ : ~(p[1] = e.g /\ p[3] = e.t)}])
+
 OnGone(e) == IF e.e = "gstart" /\ e.pg < 0 THEN Ok([S EXCEPT !.root = e.g, !.pend = {p \in @ : p[1] # e.g}])
              ELSE IF e.e = "gstop" /\ e.g = S.root THEN Ok([S EXCEPT !.final = S.pend, !.pend = {}])
              ELSE Ok([S EXCEPT !.pend = {p \in @ : p[1] # e.g}])
@@ -64,6 +69,7 @@ OnRet(e) == IF Mine("C02") /\ e.ok = 1 /\ \E p \in S.final : p[3] < Traces[tid].
 Step(e) == CASE e.e = "slots" -> (IF \E x \in SetOf(e.gs) : x.pg < 0 THEN OnSlots(e) ELSE Ok(S))
              [] e.e = "req"   -> OnReq(e)
              [] e.e = "eval"  -> OnEval(e)
+             [] e.e = "fn"    -> OnThrow(e)
              [] e.e \in {"gstop", "gstart", "gstartfail"} -> OnGone(e)
              [] e.e = "ret"   -> OnRet(e)
              [] OTHER         -> Ok(S)
